@@ -849,6 +849,26 @@ func putWorld(w *world) {
 	wmu.Unlock()
 }
 
+// skipCase marks a panic inside vh.Guard as "this input cannot be executed" rather than a finding.
+const skipMarker = "@@skip-case:"
+
+func skipCase(why string) error { return fmt.Errorf("%s %s", skipMarker, why) }
+
+func allAliasesMapped(t Tree) bool {
+	if t.Shard != nil {
+		return true
+	}
+	if !t.Mapped {
+		return false
+	}
+	for _, k := range t.Kids {
+		if !allAliasesMapped(k) {
+			return false
+		}
+	}
+	return true
+}
+
 // ---------------------------------------------------------------- requests
 
 func mkQuery(q string) query.Query {
@@ -1252,6 +1272,13 @@ func exec(in In) vh.Result {
 				data.request(lreq)
 				lr, err := w.shards[*t.Shard].SearchInContext(ctx, lreq)
 				if err != nil {
+					if !allAliasesMapped(in.World.Tree) && strings.Contains(err.Error(), "field stat for bm25 not present") {
+						// an alias without the mapping hands no BM25 statistics up, so a mapped alias above it
+						// hands incomplete pre-search data down and every member refuses to score: the
+						// configuration docs/scoring.md excludes (SetIndexMapping on every alias).  The member
+						// listing cannot be taken, so there is nothing to judge.
+						panic(skipCase("partially-mapped-alias-tree-global-bm25"))
+					}
 					panic(err)
 				}
 				if len(lr.Hits) > 0 {
@@ -1295,6 +1322,9 @@ func exec(in In) vh.Result {
 		}
 	})
 	if d != nil {
+		if i := strings.Index(d.Detail, skipMarker); i >= 0 {
+			return vh.Result{Skip: true, Hist: []string{"skipped:" + strings.TrimSpace(d.Detail[i+len(skipMarker):])}}
+		}
 		return vh.Result{Direct: d}
 	}
 	res.Term = term
